@@ -201,14 +201,20 @@ class Variant:
     discr_expr: Optional[str] = None # Rust expression with that value (default: the decimal literal)
     dmetas: List[VM] = dfield(default_factory=list)
     groups: Optional[List[int]] = None   # how metas are split over #[strum] attributes (sizes)
+    model_name: Optional[str] = None     # NON-ASCII identifier without explicit names: the name the Rust reference (heck) gives it
+                                         # under the enum's style; the model (stated over ASCII identifiers) sees it as a spelling
 
     def sexp(self) -> str:
+        if self.model_name is not None and not any(m.kind in ("ser", "tos") for m in self.metas):
+            extra = "(ser %s) " % hx(self.model_name)
+        else:
+            extra = ""
         if self.kind == "unit":
             fs = "unit"
         else:
             fs = "(%s %s)" % (self.kind, " ".join(f.sexp() for f in self.fields)) if self.fields else "(%s)" % self.kind
         return "(v %s %s (metas %s) (discr %s) (dmetas %s))" % (
-            hx(unraw(self.ident)), fs, " ".join(m.sexp() for m in self.metas if m.kind != "raw"),
+            hx(unraw(self.ident)), fs, extra + " ".join(m.sexp() for m in self.metas if m.kind != "raw"),
             "none" if self.discr is None else str(self.discr),
             " ".join(m.sexp() for m in self.dmetas))
 
